@@ -43,6 +43,8 @@ func implC03(line string) string {
 		return implAsiRe(f)
 	case "obj":
 		return implObj(f)
+	case "numadj":
+		return implNumAdj(f)
 	case "num":
 		return implNum(f)
 	case "str":
